@@ -12,8 +12,11 @@ import (
 	"fmt"
 	"math/big"
 	"math/rand"
+	"runtime"
 	"sort"
 	"strings"
+	"sync"
+	"sync/atomic"
 	"testing"
 	"testing/synctest"
 
@@ -90,6 +93,10 @@ type Op struct {
 	// await with a context that is already cancelled: if the key is present the response is queued during
 	// registration and Go's select picks the response or ctx.Done() at random
 	PreCancel bool `json:"precancel,omitempty"`
+	// store only: operations performed while this Store is inside deadliner.Add, i.e. between its expiry
+	// verdict and the rest of the call: "expire" (the deadliner emits a duty) and "store" (a complete other
+	// Store, started on its own goroutine; on code that holds the lock around Add it can only run afterwards)
+	During []Op `json:"during,omitempty"`
 	Q       int     `json:"q,omitempty"`
 	Key     *Key    `json:"key,omitempty"`
 	Comm    int     `json:"comm,omitempty"`
@@ -172,9 +179,12 @@ func aggAttData(slot, data, comm int, el bool) *eth2p0.AttestationData {
 }
 
 func mkAgg(e Entry) core.VersionedAggregatedAttestation {
+	// variant -> number of aggregation bits set: 1 -> 2, 2 -> 1, 3 -> 3, 4 -> 2 (other positions), 5 -> 4, ...
+	counts := []int{2, 1, 3, 2, 4, 5, 1, 6}
 	bits := bitfield.NewBitlist(64)
-	bits.SetBitAt(uint64(e.Bits%64), true)
-	bits.SetBitAt(uint64((e.Bits*7+3)%64), true)
+	for i := 0; i < counts[(e.Bits+7)%8]; i++ {
+		bits.SetBitAt(uint64((e.Bits*11+i*5)%64), true)
+	}
 	if e.Electra {
 		cb := bitfield.NewBitvector64()
 		cb.SetBitAt(uint64(e.Comm), true)
@@ -271,25 +281,81 @@ func mustJSON(t *testing.T, v json.Marshaler) string {
 	return string(b)
 }
 
+// storeCall is one invocation of MemDB.Store and what the harness saw of it. Events that happen inside
+// the call's critical section (deadliner.Add on code that locks around it, every Clone) are stamped from one
+// sequence so that the labels of concurrent calls can be put in the order in which things really happened.
+type storeCall struct {
+	dts    string
+	slot   int
+	status string
+	st     core.DeadlineStatus
+	terms  []string
+	order  []int // entries in the order they were visited (Clone calls)
+	addSeq int64
+	lastIn int64 // stamp of the last event known to be inside the call
+	hook   func()
+	err    error
+	done   chan struct{}
+}
+
+type seqLog struct {
+	n  atomic.Int64
+	mu sync.Mutex
+	ev []seqEvent
+}
+
+type seqEvent struct {
+	key   float64
+	label string
+}
+
+func (l *seqLog) next() int64 { return l.n.Add(1) }
+
+func (l *seqLog) add(key float64, label string) {
+	l.mu.Lock()
+	l.ev = append(l.ev, seqEvent{key, label})
+	l.mu.Unlock()
+}
+
 // spy makes Go's map iteration order observable: every store*Unsafe starts with Clone().
 type spy struct {
 	core.UnsignedData
-	idx int
-	log *[]int
+	idx  int
+	call *storeCall
+	log  *seqLog
 }
 
 func (s spy) Clone() (core.UnsignedData, error) {
-	*s.log = append(*s.log, s.idx)
+	s.call.order = append(s.call.order, s.idx)
+	s.call.lastIn = s.log.next()
 	return s.UnsignedData.Clone()
 }
 
+// fakeDeadliner: the verdict of Add is scripted per Store call; C() is fed by the harness. The harness
+// queues the storeCall before it invokes Store, Add takes it from the queue (Add is the first thing Store does).
 type fakeDeadliner struct {
-	next core.DeadlineStatus
-	ch   chan core.Duty
+	mu      sync.Mutex
+	pending []*storeCall
+	log     *seqLog
+	ch      chan core.Duty
 }
 
-func (d *fakeDeadliner) Add(core.Duty) core.DeadlineStatus { return d.next }
-func (d *fakeDeadliner) C() <-chan core.Duty                { return d.ch }
+func (d *fakeDeadliner) Add(core.Duty) core.DeadlineStatus {
+	d.mu.Lock()
+	c := d.pending[0]
+	d.pending = d.pending[1:]
+	d.mu.Unlock()
+	c.addSeq = d.log.next()
+	c.lastIn = c.addSeq
+	d.log.add(float64(c.addSeq), fmt.Sprintf("LAdd (%s, %d) %s", c.dts, c.slot, c.status))
+	if c.hook != nil {
+		c.hook()
+		c.lastIn = d.log.next() // what happened in the hook happened inside this call, before the rest of it
+	}
+	return c.st
+}
+
+func (d *fakeDeadliner) C() <-chan core.Duty { return d.ch }
 
 func dutyOf(dt string, slot int) (core.Duty, string) {
 	s := uint64(slot)
@@ -406,7 +472,8 @@ func runScript(t *testing.T, script []Op) []string {
 	}
 
 	synctest.Test(t, func(t *testing.T) {
-		dl := &fakeDeadliner{next: core.DeadlineScheduled, ch: make(chan core.Duty, 4096)}
+		slog := &seqLog{}
+		dl := &fakeDeadliner{log: slog, ch: make(chan core.Duty, 4096)}
 		db := dutydb.NewMemDB(dl)
 		results := make(chan readerResult, 4096)
 		cancels := map[int]context.CancelFunc{}
@@ -439,48 +506,104 @@ func runScript(t *testing.T, script []Op) []string {
 			labels = append(labels, "LQuiet")
 		}
 
+		// prepare builds the call object and the data set of a store op (on the main goroutine: interning)
+		prepare := func(op Op) (*storeCall, core.Duty, core.UnsignedDataSet) {
+			duty, dts := dutyOf(op.DT, op.Slot)
+			c := &storeCall{dts: dts, slot: op.Slot, status: "Scheduled", st: core.DeadlineScheduled, done: make(chan struct{})}
+			switch op.Status {
+			case "Expired":
+				c.status, c.st = "Expired", core.DeadlineExpired
+			case "Exempt":
+				c.status, c.st = "Exempt", core.DeadlineExempt
+			}
+			set := core.UnsignedDataSet{}
+			for i, e := range op.Entries {
+				v, term := build(e)
+				pk := pubkeyOf(900 + i)
+				if e.K == "att" {
+					pk = pubkeyOf(e.Pk)
+				}
+				if _, dup := set[pk]; dup {
+					continue // a Go map cannot hold it twice; not part of the set
+				}
+				set[pk] = spy{UnsignedData: v, idx: len(c.terms), call: c, log: slog}
+				c.terms = append(c.terms, term)
+			}
+			return c, duty, set
+		}
+		storeLabel := func(c *storeCall) string {
+			seen := map[int]bool{}
+			var vis, unv []string
+			for _, i := range c.order {
+				seen[i] = true
+				vis = append(vis, c.terms[i])
+			}
+			for i, tm := range c.terms {
+				if !seen[i] {
+					unv = append(unv, tm)
+				}
+			}
+			return fmt.Sprintf("LStore (%s, %d) %s [%s] [%s] %s", c.dts, c.slot, c.status,
+				strings.Join(vis, "; "), strings.Join(unv, "; "), errClass(c.err))
+		}
+		// runStore performs a store op. Its During ops run while the call is inside deadliner.Add.
+		runStore := func(op Op) {
+			c, duty, set := prepare(op)
+			var nested []*storeCall
+			if len(op.During) > 0 {
+				c.hook = func() {
+					for _, d := range op.During {
+						switch d.Op {
+						case "expire":
+							du, dts := dutyOf(d.DT, d.Slot)
+							dl.ch <- du
+							slog.add(float64(slog.next()), fmt.Sprintf("LExpire (%s, %d)", dts, d.Slot))
+						case "store":
+							nc, nduty, nset := prepare(d)
+							nested = append(nested, nc)
+							dl.mu.Lock()
+							dl.pending = append(dl.pending, nc)
+							dl.mu.Unlock()
+							var fin atomic.Bool
+							go func() {
+								nc.err = db.Store(context.Background(), nduty, nset)
+								fin.Store(true)
+								close(nc.done)
+							}()
+							// Give the other Store the chance to run to completion now. On code that holds the
+							// lock around Add it cannot (it waits for the lock) and runs after this call.
+							for i := 0; i < 20000 && !fin.Load(); i++ {
+								runtime.Gosched()
+							}
+						}
+					}
+				}
+			}
+			dl.mu.Lock()
+			dl.pending = append(dl.pending, c)
+			dl.mu.Unlock()
+			c.err = db.Store(context.Background(), duty, set)
+			for _, nc := range nested {
+				<-nc.done
+			}
+			// The LStore label of a call is placed right after the last event known to be inside that call.
+			slog.add(float64(c.lastIn)+0.5, storeLabel(c))
+			for _, nc := range nested {
+				slog.add(float64(nc.lastIn)+0.5, storeLabel(nc))
+			}
+			slog.mu.Lock()
+			sort.SliceStable(slog.ev, func(i, j int) bool { return slog.ev[i].key < slog.ev[j].key })
+			for _, e := range slog.ev {
+				labels = append(labels, e.label)
+			}
+			slog.ev = nil
+			slog.mu.Unlock()
+		}
+
 		for _, op := range script {
 			switch op.Op {
 			case "store":
-				duty, dts := dutyOf(op.DT, op.Slot)
-				switch op.Status {
-				case "Expired":
-					dl.next = core.DeadlineExpired
-				case "Exempt":
-					dl.next = core.DeadlineExempt
-				default:
-					op.Status = "Scheduled"
-					dl.next = core.DeadlineScheduled
-				}
-				set := core.UnsignedDataSet{}
-				var terms []string
-				var order []int
-				for i, e := range op.Entries {
-					v, term := build(e)
-					pk := pubkeyOf(900 + i)
-					if e.K == "att" {
-						pk = pubkeyOf(e.Pk)
-					}
-					if _, dup := set[pk]; dup {
-						continue // a Go map cannot hold it twice; not part of the set
-					}
-					set[pk] = spy{UnsignedData: v, idx: len(terms), log: &order}
-					terms = append(terms, term)
-				}
-				err := db.Store(context.Background(), duty, set)
-				seen := map[int]bool{}
-				var vis, unv []string
-				for _, i := range order {
-					seen[i] = true
-					vis = append(vis, terms[i])
-				}
-				for i, tm := range terms {
-					if !seen[i] {
-						unv = append(unv, tm)
-					}
-				}
-				labels = append(labels, fmt.Sprintf("LStore (%s, %d) %s [%s] [%s] %s", dts, op.Slot, op.Status,
-					strings.Join(vis, "; "), strings.Join(unv, "; "), errClass(err)))
+				runStore(op)
 				if !op.NoWait {
 					collect()
 				}
@@ -643,7 +766,7 @@ func (g *gen) entry(t string, dutySlot int) Entry {
 	case "pro":
 		return Entry{K: "pro", Slot: g.entrySlot(dutySlot), Blk: g.oneOr(65, 4), Extra: g.oneOr(70, 3) - 1}
 	case "agg":
-		return Entry{K: "agg", Slot: g.entrySlot(dutySlot), Data: g.oneOr(60, 2), Comm: g.r.Intn(2), Bits: g.oneOr(50, 3), Electra: g.pct(30)}
+		return Entry{K: "agg", Slot: g.entrySlot(dutySlot), Data: g.oneOr(60, 2), Comm: g.r.Intn(2), Bits: g.oneOr(40, 5), Electra: g.pct(30)}
 	default:
 		n := 1 + g.r.Intn(3)
 		e := Entry{K: "con", Single: g.pct(25)}
@@ -654,7 +777,7 @@ func (g *gen) entry(t string, dutySlot int) Entry {
 	}
 }
 
-func (g *gen) store() Op {
+func (g *gen) store(nested bool) Op {
 	t := g.typ()
 	if g.pct(4) {
 		t = []string{"builder", "randao", "exit"}[g.r.Intn(3)]
@@ -709,6 +832,20 @@ func (g *gen) store() Op {
 		}
 		op.Entries = append(op.Entries, g.entry(k, sl))
 	}
+	if !nested && g.pct(10) { // things happen between this Store's expiry verdict and the rest of the call
+		if g.pct(70) {
+			ex := Op{Op: "expire", DT: t, Slot: sl}
+			if g.pct(25) {
+				ex = g.expire()
+				ex.NoWait = false
+			}
+			g.dead[fmt.Sprintf("%s/%d", ex.DT, ex.Slot)] = true
+			op.During = append(op.During, ex)
+		}
+		if g.pct(85) {
+			op.During = append(op.During, g.store(true))
+		}
+	}
 	return op
 }
 
@@ -751,7 +888,7 @@ func genRandom(r *rand.Rand) []Op {
 	for len(s) < n {
 		switch x := r.Intn(100); {
 		case x < 38:
-			s = append(s, g.store())
+			s = append(s, g.store(false))
 		case x < 68:
 			s = append(s, g.await())
 		case x < 76:
@@ -764,7 +901,7 @@ func genRandom(r *rand.Rand) []Op {
 			s = append(s, Op{Op: "pubkey", Slot: g.slot(), Comm: r.Intn(3), VIdx: 1 + r.Intn(3)})
 		case x < 96: // race: a store resolves readers and one of them is cancelled before it runs
 			if g.nextQ > 0 {
-				st := g.store()
+				st := g.store(false)
 				st.NoWait = true
 				s = append(s, st, Op{Op: "cancel", Q: 1 + r.Intn(g.nextQ)})
 			}
@@ -793,11 +930,12 @@ func genTemplate(r *rand.Rand, which int) []Op {
 	switch which {
 	case 0: // F2 shape: same aggregate key, other aggregation bits; every reader must see the first
 		el := r.Intn(2) == 0
-		a1 := Entry{K: "agg", Slot: sl, Data: 1, Comm: 1, Bits: 1, Electra: el}
-		a2 := a1
-		a2.Bits = 2
+		a1 := Entry{K: "agg", Slot: sl, Data: 1, Comm: 1, Bits: 1, Electra: el} // 2 aggregation bits
+		a2, a3, a4, a5 := a1, a1, a1, a1
+		a2.Bits, a3.Bits, a4.Bits, a5.Bits = 2, 3, 4, 5 // 1, 3, 2 (other positions), 4 bits; other signatures
 		k := Key{K: "agg", Slot: sl, A: 1, B: 1, Electra: el}
-		return []Op{aw(1, k), st("agg", sl, a1), aw(2, k), st("agg", sl, a2), aw(3, k), st("agg", sl, a1, a2), aw(4, k)}
+		return []Op{aw(1, k), st("agg", sl, a1), aw(2, k), st("agg", sl, a2), aw(3, k), st("agg", sl, a3), aw(4, k),
+			st("agg", sl, a4), aw(5, k), st("agg", sl, a1, a5), aw(6, k), st("agg", sl, a5, a3, a2), aw(7, k)}
 	case 1: // several blocked readers, one store wakes them all; other keys stay blocked
 		k := Key{K: "att", Slot: sl, A: 1}
 		return []Op{aw(1, k), aw(2, k), aw(3, Key{K: "att", Slot: sl, A: 0}), aw(4, Key{K: "att", Slot: sl, A: 2}), aw(5, Key{K: "pro", Slot: sl}),
@@ -857,6 +995,42 @@ func genTemplate(r *rand.Rand, which int) []Op {
 			{Op: "pubkey", Slot: sl, Comm: 1, VIdx: 1}, {Op: "pubkey", Slot: sl, Comm: 2, VIdx: 2}, {Op: "pubkey", Slot: sl, Comm: 0, VIdx: 1},
 			aw(1, Key{K: "att", Slot: sl, A: 1}), aw(2, Key{K: "att", Slot: sl, A: 2}), aw(3, Key{K: "att", Slot: sl, A: 0}),
 			{Op: "expire", DT: "att", Slot: sl + 1}, st("att", sl+2), aw(4, Key{K: "att", Slot: sl, A: 1}), aw(5, Key{K: "att", Slot: sl, A: 0})}
+	case 12, 13, 14, 15: // another Store processes the duty's expiry between the verdict and the write of a Store
+		var x, y, other Entry
+		var k Key
+		var dt, odt string
+		conflicting := r.Intn(3) != 0
+		v := 1
+		if conflicting {
+			v = 2
+		}
+		switch which {
+		case 12:
+			dt, odt = "att", "pro"
+			x, y = att(1, 1, 1, 1, 1, 1), att(1, 1, 1, v, 1, 1)
+			k = Key{K: "att", Slot: sl, A: 1}
+			other = Entry{K: "pro", Slot: sl + 1, Blk: 1}
+		case 13:
+			dt, odt = "pro", "att"
+			x, y = Entry{K: "pro", Slot: sl, Blk: 1}, Entry{K: "pro", Slot: sl, Blk: v}
+			k = Key{K: "pro", Slot: sl}
+			other = Entry{K: "att", Pk: 1, DSlot: sl + 1, Slot: sl + 1, Comm: 1, VIdx: 1, Head: 1, Src: 1, Tgt: 1}
+		case 14:
+			dt, odt = "agg", "con"
+			x, y = Entry{K: "agg", Slot: sl, Data: 1, Comm: 1, Bits: 1}, Entry{K: "agg", Slot: sl, Data: 1, Comm: 1, Bits: 1 + 2*(v-1)}
+			k = Key{K: "agg", Slot: sl, A: 1, B: 1}
+			other = Entry{K: "con", Cs: []Con{{Slot: sl + 1, Sub: 0, BRoot: 1, Var: 1}}}
+		default:
+			dt, odt = "con", "agg"
+			x, y = Entry{K: "con", Cs: []Con{{Slot: sl, Sub: 1, BRoot: 1, Var: 1}}}, Entry{K: "con", Cs: []Con{{Slot: sl, Sub: 1, BRoot: 1, Var: v}}}
+			k = Key{K: "con", Slot: sl, A: 1, B: 1}
+			other = Entry{K: "agg", Slot: sl + 1, Data: 1, Comm: 0, Bits: 1}
+		}
+		second := st(dt, sl, y)
+		second.During = []Op{{Op: "expire", DT: dt, Slot: sl}, st(odt, sl+1, other)}
+		late := st(dt, sl, y)
+		late.Status = "Expired"
+		return []Op{aw(1, k), st(dt, sl, x), aw(2, k), second, aw(3, k), late, st(odt, sl+1, other), aw(4, k)}
 	default: // undisciplined deadliner: a store accepted after the expiry serves other data (why C06 needs C16)
 		p1 := Entry{K: "pro", Slot: sl, Blk: 1}
 		p2 := Entry{K: "pro", Slot: sl, Blk: 2}
@@ -864,7 +1038,7 @@ func genTemplate(r *rand.Rand, which int) []Op {
 	}
 }
 
-const nTemplates = 12
+const nTemplates = 17
 
 func classify(labels []string) (blocked, clashes int) {
 	waiting := map[string]bool{}
